@@ -1,7 +1,7 @@
 (* Correspondence checker for the `bytes` driver: observed outcome classes of the real ABCI entry points
    against the verdict classes of Model/Total.v.
    classes: 0 accepted/executed, 1 error returned (out of gas included), 2 panic recovered (ErrPanic), 4 escaped panic. *)
-From Evm Require Import BaseFee TxPipe Total CorrBase.
+From Evm Require Import BaseFee TxPipe Total TraceCfg CorrBase.
 Open Scope Z_scope.
 
 Definition non_crash (c : Z) : bool := (0 <=? c) && (c <=? 3).
@@ -36,6 +36,9 @@ Inductive tcase :=
    observed: receipt failed?, class *)
 | TCpc (len : Z) (known args_ok : bool) (obs_failed : bool) (cls : Z)
 | TQuery (q : query_in) (cls : Z)
+(* a trace query probed in a child process: entry point (TraceBlock?), negative limit?, class of the timeout and of the
+   tracer option; observed: class of the answer, did the process survive the probe *)
+| TTrace (block limit_neg : bool) (timeout : timeout_k) (tracer : tracer_k) (cls : Z) (survived : bool)
 | TEnd (l : list bool) (base used mg md : Z) (survived : bool).
 
 Definition raw_of (decodes : bool) : raw_in := mkRaw decodes (LOpaque (VOk false)).
@@ -58,6 +61,9 @@ Definition total_ok (c : tcase) : bool :=
       | _ => false
       end
   | TQuery q cls => class_of (query q) =? cls
+  | TTrace block ln to tr cls survived =>
+      let c := mkTraceCfg ln to tr in
+      Bool.eqb survived (negb (watchdog_crashes false c)) && (if survived then agrees (trace_class block c) cls else true)
   | TEnd l base used mg md survived =>
       Bool.eqb survived (match end_block (fold_left blk_step l blk0) base used mg md with VOk _ => true | _ => false end)
   end.
